@@ -230,3 +230,10 @@ def coq_term(case, obs):
 
 def coq_model_expr(case):
     return 'mux_model %s %s' % (muxlib.coq_pipe([case['op']]), muxlib.coq_trace(trace_of(case)))
+
+
+CLAIM = {
+    'text': 'Theorems (Coq), timed (what is emitted while each item is consumed + at completion), for every item sequence and parameter: take/first/last, distinct (first occurrence per == class), lag(1) and lag(n) (item n back or first item), pad_start/pad_end/start_with (nothing for an empty key), map/filter; bridge theorem from the slot-level machine on any keyed trace to these list semantics. batch and distinct_until_changed are expansions over scan+filter+map whose closed-form chunk theorem is not proved here (partial; C20 proves the chunk shape on its own batch model); sort is plain-only (Python sorted is an oracle). Oracle: the list definitions in Python, mux per key and plain.',
+    'note': 'Trusted: Coq kernel+VM; hand-written model; Python sorted stability, == and hash modelled not verified.',
+    'technique': 'Coq proof (forward-simulation refinement of a slot-level model by per-key local machines, list-level induction) + vm_compute correspondence against /repo + model-free oracle',
+}
